@@ -10,8 +10,9 @@
 (***************************************************************************)
 EXTENDS Naturals, Sequences, FiniteSets, TLC, Json
 
-Elems == {"fa", "fb", "CA", "CB", "CC"}        \* CC: undocumented class with an attribute named like CA's
-Perms == { p \in [1..5 -> Elems] : \A i, j \in 1..5 : i # j => p[i] # p[j] }
+Elems == {"fa", "fb", "CA", "CB", "CC", "fc"}  \* CC: undocumented class with an attribute named like CA's; fc: three results, the first named
+NE == 6
+Perms == { p \in [1..NE -> Elems] : \A i, j \in 1..NE : i # j => p[i] # p[j] }
 Styles == {"PLAINTEXT", "GOOGLE", "NUMPYDOC", "REST"}
 
 (* documented items of an element: <<owner declaration, item, tag, tag name>> *)
@@ -24,22 +25,24 @@ Items(e) ==
     [] e = "CA" -> { <<"CA", "desc", "desc", "">>, <<"CA", "p_x", "param", "x">>, <<"CA.at", "at", "desc", "">> } \cup FunItems("CA.meth", FALSE)
     [] e = "CB" -> { <<"CB", "desc", "desc", "">> } \cup FunItems("CB.meth", FALSE)
     [] e = "CC" -> {}
+    [] e = "fc" -> { <<"fc", "desc", "desc", "">>, <<"fc", "p_p", "param", "p">>,
+                     <<"fc", "ra", "result", "count">>, <<"fc", "rb", "result", "result_1">>, <<"fc", "rc", "result", "result_2">> }
 AllItems == UNION { Items(e) : e \in Elems }
 
 VARIABLES order, i, comments
 vars == <<order, i, comments>>
 Init == order \in Perms /\ i = 1 /\ comments = {}
 Attach ==
-  /\ i <= 5
+  /\ i <= NE
   /\ comments' = comments \cup { <<it[1], it>> : it \in Items(order[i]) }     \* each item goes to the comment of its own declaration
   /\ i' = i + 1 /\ UNCHANGED order
 Next == Attach
 Spec == Init /\ [][Next]_vars /\ WF_vars(Next)
 Inv_C13_Attach == \A c \in comments : c[1] = c[2][1]
-Inv_C13_Complete == i = 6 => { c[2] : c \in comments } = AllItems
-Inv_C13_OrderFree == i = 6 => comments = { <<it[1], it>> : it \in AllItems }
-Live_Done == <>(i = 6)
-Emit == i = 6 => PrintT(ToJson(order))
+Inv_C13_Complete == i = NE + 1 => { c[2] : c \in comments } = AllItems
+Inv_C13_OrderFree == i = NE + 1 => comments = { <<it[1], it>> : it \in AllItems }
+Live_Done == <>(i = NE + 1)
+Emit == i = NE + 1 => PrintT(ToJson(order))
 
 (***************************************************************************)
 (* Judging one module of a real run.                                       *)
@@ -51,8 +54,9 @@ DescLines(o) == << "tok_" \o Und(o) \o "_desc first line.", "Second line of " \o
 Structured(style) == style # "PLAINTEXT"
 (* which items a style can carry: plain text keeps the whole docstring as description; reST has no examples section *)
 Carried(it, style) ==
-  CASE style = "PLAINTEXT" -> TRUE
-    [] style = "REST" -> it[2] # "ex"
+  CASE style = "PLAINTEXT" -> it[2] \notin {"ra", "rb", "rc"}
+    [] style = "REST" -> it[2] \notin {"ex", "ra", "rb", "rc"}
+    [] style = "GOOGLE" -> it[2] \notin {"ra", "rb", "rc"}      \* only NumPy sections carry several results
     [] OTHER -> TRUE
 Judge(obs) ==
   LET F == ToSet(obs.found)
@@ -67,6 +71,8 @@ Judge(obs) ==
          : it \in { it \in exp : \E f \in at(it) : f.decl # owner2decl(it) } }
   \cup { [property |-> "C13", clause |-> "Attach", sig |-> "wrong-tag:" \o obs.style \o ":" \o it[3], expected |-> it[3] \o " " \o it[4], observed |-> ToString({ <<f.tag, f.tagname>> : f \in at(it) })]
          : it \in { it \in exp : Structured(obs.style) /\ \E f \in at(it) : f.decl = it[1] /\ (f.tag # it[3] \/ (it[3] \in {"param", "result"} /\ f.tagname # it[4])) } }
+  \cup { [property |-> "C13", clause |-> "Attach", sig |-> "result-tag-names-no-result:" \o obs.style, expected |-> ToString(f.sigres), observed |-> f.tagname]
+         : f \in { f \in F : Structured(obs.style) /\ f.tag = "result" /\ f.tagname \notin ToSet(f.sigres) } }
   \cup { [property |-> "C13", clause |-> "Intact", sig |-> "description-lines:" \o obs.style, expected |-> ToString(DescLines(l.decl)), observed |-> ToString(l.text)]
          : l \in { l \in ToSet(obs.lines) : l.text # DescLines(l.decl) } }
 
